@@ -172,9 +172,9 @@ SCOPE = ("coxeter.shapes", "coxeter.extern.polytri")
 
 
 def scan(index: Index) -> Scan:
-    key = id(index)
-    if key in _CACHE:
-        return _CACHE[key]
+    cached = getattr(index, "_dimscan_result", None)    # cached on the Index itself: an id() key is reused after gc
+    if cached is not None:
+        return cached
     sc = Scan()
     for cls in index.shape_classes():
         members = dict(cls.public_members())
@@ -236,5 +236,5 @@ def scan(index: Index) -> Scan:
                             sc.sites[s.key] = s
                     elif e.type == "construct":
                         sc.constructs.append((cls.name, name, e.cls.name, e.args, e.kwargs, e))
-    _CACHE[key] = sc
+    index._dimscan_result = sc
     return sc
